@@ -1,0 +1,63 @@
+//! Verification hooks for the side metadata accessors (only compiled with `--cfg mmtk_verif`).
+//!
+//! These functions do what the crate's own unit tests do to use a custom `SideMetadataSpec`
+//! without building an `MMTK` instance: register the layout, reserve the side metadata address
+//! range, map the metadata of a data range for given specs, and map data memory through the
+//! `MMAPPER` (the search functions consult `Address::is_mapped`).  Nothing here interprets
+//! metadata contents.
+
+use super::*;
+use crate::util::os::{HugePageSupport, MmapAnnotation, MmapProtection};
+use crate::util::Address;
+
+/// The first offset that does not collide with any side metadata spec of mmtk-core
+/// (global and local specs are laid out contiguously on 64-bit targets).
+pub fn first_free_offset() -> usize {
+    side_metadata_offset_after(&spec_defs::LAST_LOCAL_SIDE_METADATA_SPEC)
+}
+
+/// The offset right after `spec` (word aligned), for laying out several custom specs.
+pub fn offset_after(spec: &SideMetadataSpec) -> usize {
+    side_metadata_offset_after(spec)
+}
+
+/// Register `specs` as the VM's side metadata layout and reserve the side metadata address
+/// range.  May be called once per process (like `initialize_side_metadata::<VM>`).
+pub fn init(specs: &[SideMetadataSpec]) {
+    set_vm_side_metadata_specs(specs);
+    initialize_side_metadata_base(Address::ZERO, HugePageSupport::No);
+}
+
+/// Map the side metadata of `specs` for the data range `[data_start, data_start + bytes)`
+/// (page aligned), exactly as a space does when it acquires pages.
+pub fn map_metadata(
+    specs: &[SideMetadataSpec],
+    data_start: Address,
+    bytes: usize,
+) -> Result<(), String> {
+    let ctx = SideMetadataContext {
+        global: vec![],
+        local: specs.to_vec(),
+    };
+    ctx.try_map_metadata_space(data_start, bytes, "verif")
+        .map_err(|e| format!("{:?}", e))
+}
+
+/// Map data memory `[start, start + bytes)` through the `MMAPPER` (chunk granularity).
+pub fn map_data(start: Address, bytes: usize) -> Result<(), String> {
+    let pages = crate::util::conversions::bytes_to_pages_up(bytes);
+    crate::MMAPPER
+        .ensure_mapped(
+            start,
+            pages,
+            HugePageSupport::No,
+            MmapProtection::ReadWrite,
+            &MmapAnnotation::Misc { name: "verif-data" },
+        )
+        .map_err(|e| format!("{:?}", e))
+}
+
+/// The mmap granularity of the `MMAPPER` in bytes.
+pub fn mmap_granularity() -> usize {
+    crate::MMAPPER.granularity()
+}
